@@ -213,7 +213,8 @@ class ConnModel(e1_history.Model):
                 elif op == 'sendbig':
                     ok = s['phase'] == 'open' and s['peer_open'] and not s['shut'] and not s['big']
                 elif op in ('sendclose5', 'sendclose4096', 'sendshut8192'):
-                    ok = s['phase'] == 'open' and s['peer_open'] and not s['shut'] and not s['ended']
+                    # (also after the server asked for the close: with output still buffered that close is deferred)
+                    ok = s['phase'] == 'open' and s['peer_open'] and not s['shut']
                 elif op == 'shutwr':
                     ok = s['phase'] == 'open' and s['peer_open'] and not s['shut'] and not s['ended']
                 elif op == 'pclose':
